@@ -23,6 +23,12 @@
 
 using namespace vrt;
 
+#if VRT_ASAN
+// vrt's per-thread hook records are "never freed" by design, but the vector that references them is destroyed before LSan's
+// exit-time check, so the records of threads that have exited are reported. Everything else stays subject to the leak check.
+extern "C" const char* __lsan_default_suppressions() { return "leak:vrt::hook_thread\n"; }
+#endif
+
 // ------------------------------------------------------------------------------------------------ failure collection
 struct Scen;
 static std::atomic<Scen*> g_cur{nullptr};
@@ -130,6 +136,7 @@ struct Scen {
     std::vector<uint64_t> tab; HC hc;
     std::vector<std::vector<OpSpec>> plan;
     std::unique_ptr<Map> map;
+    std::unique_ptr<Barrier> start;
     Clock clk;
     TLog log[4];
     std::vector<int> grown[4];       // unique keys a thread inserted successfully
@@ -265,8 +272,10 @@ static void generate(Scen& s, int cpus, long force_threads, long force_prefill) 
     // initial table and pre-fill: fresh 2-bucket table (first insert grows it to 256 with every new bucket flagged for lazy
     // rehash) or a table pre-filled to just below the threshold at which the next segment is enabled
     unsigned x = (unsigned)r.below(100);
-    s.threshold = x < 50 ? 0 : x < 78 ? 255 : x < 91 ? 511 : x < 97 ? 1023 : 2047;
+    s.threshold = x < 50 ? 0 : x < 80 ? 255 : x < 92 ? 511 : x < 98 ? 1023 : 2047;
     if (force_prefill >= 0) s.threshold = (int)force_prefill;
+    // one-chain hashes make every operation O(size): keep those tables small (the chain is still 250-500 long)
+    if ((s.mode == H_CONST || s.mode == H_BITREV) && s.threshold > 511) s.threshold = s.threshold == 1023 ? 255 : 511;
     if (s.threshold == 0) { s.init_buckets = (int)r.below(3); s.prefill = r.chance(1, 5) ? 1 + (int)r.below(12) : 0; }
     else {
         s.init_buckets = r.chance(1, 2) ? 0 : (int)r.pick(std::vector<int>{ 1, 2, 3, 100, 256, 257, 512, 1024 });
@@ -275,9 +284,10 @@ static void generate(Scen& s, int cpus, long force_threads, long force_prefill) 
     // hashes of the test keys
     s.hc.mode = s.mode; s.hc.nk = s.nkeys; s.hc.j = (int)r.pick(std::vector<int>{ 1, 1, 2, 3, 7, 8, 8, 9, 10 }); s.hc.base = r.next() & 0x3ff;
     s.tab.resize(s.nkeys);
+    bool adv_onebit = r.chance(1, 2);    // hashes that differ from the common low bits in one higher bit: all direct children of one bucket
     for (int k = 0; k < s.nkeys; k++) {
         HC tmp = s.hc; tmp.nk = 0;
-        if (s.mode == H_ADV) s.tab[k] = (s.hc.base & ((1ull << s.hc.j) - 1)) | (r.below(r.chance(1, 2) ? 4 : 16) << s.hc.j);   // same low j bits: parent/child buckets of the splits at level j..j+3
+        if (s.mode == H_ADV) s.tab[k] = (s.hc.base & ((1ull << s.hc.j) - 1)) | ((adv_onebit ? (r.chance(1, 6) ? 0 : 1ull << r.below(5)) : r.below(r.chance(1, 2) ? 4 : 16)) << s.hc.j);   // same low j bits: parent/child buckets of the splits at level j..j+3
         else if (s.mode == H_IDENT) s.tab[k] = r.chance(1, 2) ? (uint64_t)k : (uint64_t)(1 + (k << (int)r.below(9)));
         else s.tab[k] = tmp.other(k + (r.chance(1, 2) ? 0 : 1 << 8));
     }
@@ -330,18 +340,23 @@ int main(int argc, char** argv) {
         R.finish_and_exit(3);
     });
 
-    // persistent worker threads (thread t of every scenario is the same OS thread)
-    Barrier bar(5);
+    // persistent worker threads (thread t of every scenario is the same OS thread). Between scenarios they wait politely
+    // (the main thread spends 50-500 us pre-filling and checking); the participants then meet at a spinning barrier so
+    // that their first operations really start together.
     std::atomic<bool> quit{false};
+    std::atomic<uint64_t> gen{0};
+    std::atomic<int> done_cnt{0};
     std::atomic<Scen*> cur{nullptr};
     std::vector<std::thread> pool;
     for (int t = 0; t < 4; t++) pool.emplace_back([&, t] {
+        uint64_t seen = 0;
         for (;;) {
-            bar.wait();
+            for (int spins = 0; gen.load(std::memory_order_acquire) == seen; ) { if (++spins < 3000) _mm_pause(); else if (spins < 3100) sched_yield(); else sleep_us(25); }
+            seen++;
             if (quit.load()) return;
             Scen* s = cur.load();
-            if (t < s->nthreads) run_thread(*s, t);
-            bar.wait();
+            if (t < s->nthreads) { s->start->wait(); run_thread(*s, t); }
+            done_cnt.fetch_add(1, std::memory_order_release);
         }
     });
 
@@ -359,8 +374,10 @@ int main(int argc, char** argv) {
         size_t buckets0 = m.bucket_count();
         g_cur.store(&s); cur.store(&s);
         perturb_random(top, ids);
-        bar.wait();      // start
-        bar.wait();      // all threads done
+        s.start.reset(new Barrier(s.nthreads));
+        done_cnt.store(0);
+        gen.fetch_add(1, std::memory_order_release);
+        for (int spins = 0; done_cnt.load(std::memory_order_acquire) < 4; ) { if (++spins < 2000) _mm_pause(); else if (spins < 2100) sched_yield(); else sleep_us(20); }
         perturb().clear();
         size_t buckets1 = m.bucket_count();
 
@@ -432,6 +449,7 @@ int main(int argc, char** argv) {
             auto pos = det.find(" ##"); if (pos != std::string::npos) { scen = det.substr(pos + 3); det = det.substr(0, pos); }
             R.violation(g_fail_key, det.substr(0, 1400) + " (" + std::to_string(g_fails.load()) + " failed checks in this scenario)", scen);
             g_fails.store(0);
+            if (R.violations_total <= 5) R.write();      // a broken map often crashes a little later: keep what was seen
         } else if (R.want_sample() && sample_ov >= 3 && buckets1 != buckets0) {
             Json j; j.obj(); j.kv("threads", s.nthreads); j.kv("hash", hash_name[s.mode]); j.kv("prefill", s.prefill); j.kv("buckets_before", (unsigned long long)buckets0); j.kv("buckets_after", (unsigned long long)buckets1);
             j.kv("key", sample_key); j.kv("key_hash", (unsigned long long)s.tab[sample_key]); j.kv("overlapping_pairs", sample_ov); j.kv("clock", s.ns_clock ? "ns" : "seq");
@@ -440,7 +458,7 @@ int main(int argc, char** argv) {
         }
         progress();
     }
-    quit.store(true); bar.wait();
+    quit.store(true); gen.fetch_add(1);
     for (auto& t : pool) t.join();
     watchdog_stop();
     R.stat("hook_delays", (long long)perturb().delays.load());
